@@ -85,7 +85,11 @@ def concept_case(out: Outcome, rng, cls: str, lines, expect) -> None:
         np.random.set_state(s2)
         n_since += 1
         if dets.obs(cls, with_cb) != dets.obs(cls, plain):
-            out.violation(f"{cls}: attaching the history callback changes the detector's output at update {t + 1}", {**rep, "step": t + 1})
+            # the twins are fed from EQUAL states of NumPy's global generator; a KSWIN whose update leaves that generator where it was draws its sample elsewhere
+            # (its own generator): the twins are then not comparable this way - a broken assumption of this check, not a verdict
+            same_state = s1[0] == s2[0] and s1[2:] == s2[2:] and bool(np.array_equal(s1[1], s2[1]))
+            (out.mismatch if (cls == "KSWIN" and same_state) else out.violation)(
+                f"{cls}: attaching the history callback changes the detector's output at update {t + 1}", {**rep, "step": t + 1})
             return
         h = cb.history
         if logs["h"] is not cb.logs or any(logs["h"][k] is not h[k] for k in h):
